@@ -972,6 +972,7 @@ VARIANTS += [
     ], ("PARSE-READONLY",)),
     M("all-trees-constrained-leaves-only", TREES, "    return _all_trees_from_triples(leaves, triples)\n", "    return _all_trees_from_triples([leaf for leaf in leaves if any(leaf in triple for triple in triples)], triples)\n", "LEAVES-SOURCE"),
     T("twin-all-trees-leaves-listed", TREES, "    return _all_trees_from_triples(leaves, triples)\n", "    every = list(leaves)\n    return _all_trees_from_triples(every, triples)\n"),
+    M("lca-strict-ancestor-through-parent", TREES, "        return self(first, second) == first and first != second", "        return second.up is not None and self.is_ancestor_of(first, second.up)", "DERIVED-QUERIES"),
     M("update-returns-in-loop", DP, "                self._value = value\n\n    update.__doc__", "                self._value = value\n                return\n\n    update.__doc__", "UPDATE-ALL-CANDIDATES"),
 ]
 
